@@ -971,6 +971,21 @@ impl World {
         Some(r)
     }
 
+    /// A closed cycle of DNAME records in the insecure zone (unsigned, as
+    /// everything there): `la DNAME lb`, `lb DNAME la`, for a query name
+    /// below `la`. Nothing to be fooled by - but following it must end.
+    pub fn forged_dname_loop(&self, qname: &str) -> Option<Resp> {
+        if !qname.ends_with(".la.unsigned.tld.") {
+            return None;
+        }
+        let mut r = Resp::default();
+        let ttl = domain::base::Ttl::from_secs(300);
+        r.answer.push(Record::new(sname("la.unsigned.tld."), domain::base::iana::Class::IN, ttl, ZoneRecordData::Dname(domain::rdata::Dname::new(sname("lb.unsigned.tld.")))));
+        r.answer.push(Record::new(sname("lb.unsigned.tld."), domain::base::iana::Class::IN, ttl, ZoneRecordData::Dname(domain::rdata::Dname::new(sname("la.unsigned.tld.")))));
+        r.insecure = true;
+        Some(r)
+    }
+
     /// The forged answer from the attacker's root zone, if it has one.
     pub fn forged_root_answer(&self, qname: &str, qtype: Rtype) -> Option<Resp> {
         let z = self.evil_root.as_ref()?;
